@@ -76,6 +76,15 @@ def whileLoop {σ ρ : Type} : Nat → σ → (σ → Sum ρ σ) → Option ρ
     | Sum.inl r => some r
     | Sum.inr s' => whileLoop fuel s' body
 
+/-- Python truth value of the few types that occur in conditions of the translated functions -/
+class Truthy (α : Type) where
+  truthy : α → Bool
+export Truthy (truthy)
+instance : Truthy Bool := ⟨id⟩
+instance : Truthy String := ⟨fun s => !s.isEmpty⟩
+instance {α} : Truthy (List α) := ⟨fun l => !l.isEmpty⟩
+instance {α} [Truthy α] : Truthy (Option α) := ⟨fun o => match o with | none => false | some v => truthy v⟩
+
 /-- `int(s)` for a string of ASCII decimal digits; anything else is a `ValueError` here (Python's `int` also accepts
 signs, blanks, underscores and non-ASCII digits: outside the modelled domain, as in `AsNum.decVal?`) -/
 def intOfDigits (s : List Char) : Except Err Nat :=
